@@ -27,6 +27,8 @@ def sh(cmd, cwd=None, env=None, timeout=3600):
 def main():
     seed_dir, pid = sys.argv[1], sys.argv[2]
     checks = sys.argv[3:] or [pid]
+    var = os.environ.get("SEED_VARIANT", "")
+    sfx = f"_{var}" if var else ""
     name = os.environ.get("SEED_NAME", pid + "-" + os.path.basename(os.path.dirname(os.path.abspath(seed_dir))).replace("wt_", "s"))
     wt = tempfile.mkdtemp(prefix="seedwt.", dir="/tmp")
     os.rmdir(wt)
@@ -35,11 +37,11 @@ def main():
         rc, out = sh(f"git -C /repo worktree add -q --detach {wt} HEAD")
         assert rc == 0, out
         os.makedirs(f"{wt}/seed", exist_ok=True)
-        shutil.copy(f"{seed_dir}/demo.py", f"{wt}/seed/demo.py")
+        shutil.copy(f"{seed_dir}/demo{sfx}.py", f"{wt}/seed/demo.py")
         rc0, out0 = sh("/venv/bin/python seed/demo.py", cwd=wt, timeout=900)
         meta["demo_without_patch"] = dict(exit=rc0, tail=out0[-300:])
         meta["ran"].append("demo.py on unpatched HEAD")
-        rc, out = sh(f"git apply {os.path.abspath(seed_dir)}/patch.diff", cwd=wt)
+        rc, out = sh(f"git apply {os.path.abspath(seed_dir)}/patch{sfx}.diff", cwd=wt)
         meta["patch_applies"] = rc == 0
         if rc != 0:
             meta["error"] = out[-400:]
@@ -97,9 +99,10 @@ def main():
         shutil.rmtree(wt, ignore_errors=True)
         out_dir = os.path.join(VERIF, "seeded", name)
         os.makedirs(out_dir, exist_ok=True)
-        for f in ("patch.diff", "demo.py", "notes.md"):
-            if os.path.exists(f"{seed_dir}/{f}"):
-                shutil.copy(f"{seed_dir}/{f}", out_dir)
+        for f in ("patch", "demo", "notes"):
+            ext = {"patch": ".diff", "demo": ".py", "notes": ".md"}[f]
+            if os.path.exists(f"{seed_dir}/{f}{sfx}{ext}"):
+                shutil.copy(f"{seed_dir}/{f}{sfx}{ext}", os.path.join(out_dir, f + ext))
         json.dump(meta, open(os.path.join(out_dir, "meta.json"), "w"), indent=1)
         print(json.dumps({k: meta.get(k) for k in ("name", "valid_seed", "caught_by", "demo_without_patch", "demo_with_patch", "tests_with_patch")}, indent=1)[:1500])
         for c, v in meta["checks"].items():
